@@ -102,6 +102,10 @@ class ScriptedNet(Net):
     def before_send(self, sock, data):
         if self.k < 0:
             return
+        if bytes(data[:8]) == b"CONNECT ":
+            # a tunnelling proxy: the tunnel is always granted; the attempt's record is about what follows
+            sock.peer.send(b"HTTP/1.1 200 Connection established\r\n\r\n")
+            return
         lg = self.log[self.k]
         if lg["first_send_done"]:
             return
@@ -125,7 +129,22 @@ class ScriptedNet(Net):
 
 def counting_pool_class(base, net):
     class CountingPool(base):
-        def _make_request(self, conn, method, url, **kw):
+        _began = False
+
+        def _prepare_proxy(self, conn):
+            # a tunnel is set up (connect + CONNECT) before _make_request: the attempt begins here
             net.begin_attempt()
+            self._began = True
+            try:
+                return super()._prepare_proxy(conn)
+            except BaseException:
+                self._began = False
+                raise
+
+        def _make_request(self, conn, method, url, **kw):
+            if self._began:
+                self._began = False
+            else:
+                net.begin_attempt()
             return super()._make_request(conn, method, url, **kw)
     return CountingPool
